@@ -159,6 +159,8 @@ func values(r *mc.Run) []V3 {
 			all = append(all, V3{e, u, ""}, V3{e, u, "10"}, V3{e, u, "100"})
 		}
 	}
+	// the zero Version and its neighbours (values a caller leaves unset or builds by hand): ordered like any other value
+	all = append(all, V3{0, "", ""}, V3{0, "", "1"}, V3{1, "", ""}, V3{0, "", "~"})
 	// digit runs around the machine word sizes, plain and zero-padded to more characters than a larger value has
 	for _, run := range []string{"99", "0000000000000000000099", "100", "00000000000000000000100", "4294967295", "4294967296", "9223372036854775807", "9223372036854775808",
 		"18446744073709551615", "18446744073709551616", "20240101120000123456", "020240101120000123456"} {
@@ -285,7 +287,7 @@ func Run(r *mc.Run) {
 	set := []V3{{0, "1.0", ""}, {0, "1.00", ""}, {0, "1.0", "0"}, {0, "1.0~rc1", ""}, {0, "1.0+b1", ""}, {0, "1.0a", ""},
 		{0, "1.0", "1"}, {0, "1.0.", ""}, {1, "0.1", ""}, {0, "1.0~~", ""}, {0, "9", ""}, {0, "10", ""},
 		// the same upstream text under different epochs, with revisions that order the other way round
-		{1, "1.0", ""}, {1, "1.0", "0~"}, {2, "1.0", "1"}}
+		{1, "1.0", ""}, {1, "1.0", "0~"}, {2, "1.0", "1"}, {0, "", ""}}
 	L := r.Pick(4, 5)
 	m := len(set)
 	r.Scenario("sort-all-sequences", map[string]interface{}{"set": set, "max_len": L}, m*m, func(sh int, st *mc.Stats) bool {
